@@ -309,7 +309,13 @@ impl Check for C14 {
             }
             per.into_values().collect()
         };
-        let files: Vec<Vec<TMsg>> = files.into_iter().filter(|f| !f.is_empty()).collect();
+        let mut files: Vec<Vec<TMsg>> = files.into_iter().filter(|f| !f.is_empty()).collect();
+        // two recordings that start at the very same instant (the permutation part is not judged then)
+        if files.len() > 1 && k.chance(1, 5) {
+            let t0 = files.iter().map(|f| f[0].rx_us).min().unwrap();
+            let j = k.usize(files.len());
+            files[j][0].rx_us = t0;
+        }
         let total: usize = files.iter().map(|f| f.len()).sum();
         let mut garbage = vec![];
         for _ in 0..k.usize(4) {
@@ -368,6 +374,9 @@ impl Check for C14 {
         let root = root_dir();
         let _ = std::fs::remove_dir_all(&root);
         std::fs::create_dir_all(&root).unwrap();
+        if firsts.len() != c.files.len() {
+            ctx.probe("files_with_equal_start_time");
+        }
         let r = run_inner(c, ctx, &root, firsts.len() == c.files.len() && !ties);
         if std::env::var("VERIF_KEEP").is_err() {
             let _ = std::fs::remove_dir_all(&root);
@@ -427,7 +436,7 @@ impl Check for C14 {
         vec!["thread scheduling/channels (shuttle + seam, bounds overridden)", "world model writing the input files", "real file system in a per-run directory"]
     }
     fn required_reach() -> Vec<&'static str> {
-        vec!["try_send_full", "opt_index_window", "opt_lcs", "opt_eac", "opt_filter_file_dlf", "opt_filter_file_convert", "opt_sort", "opt_output_file", "multi_file", "permutation_compared"]
+        vec!["try_send_full", "opt_index_window", "opt_lcs", "opt_eac", "opt_filter_file_dlf", "opt_filter_file_convert", "opt_sort", "opt_output_file", "multi_file", "files_with_equal_start_time", "permutation_compared"]
     }
 }
 
